@@ -1150,6 +1150,18 @@ def oracle_reopen(c):
                     msg = f"status flag {name} differs: requested {bool(flags & bit)} got {bool(fl & bit)}"
             if not msg:
                 same_inode = 1
+    # the kernel's own re-open through the /proc/self/fd/<n> magic-link, done by the harness just before the call, is what
+    # reopen is specified to be: success where that succeeds, the same errno where it fails
+    kref = (c.extra.get("kref") or [None])[0]
+    if not msg and kref and not creation and h.get("kind") != "l" and not faulted:
+        if kref[0] == "ok" and d is None:
+            msg = (f"reopen failed ({' '.join(c.res[:3])}) although the kernel's re-open of the same descriptor through its "
+                   f"/proc/self/fd magic-link succeeds (history: {c.meta.get('history')})")
+        elif kref[0] == "err" and d is not None:
+            msg = f"reopen succeeded although the kernel's re-open through the magic-link fails with errno {kref[1]}"
+        elif kref[0] == "err" and c.res[:3] != ["err", "OsError", kref[1]]:
+            msg = (f"reopen failed with {' '.join(c.res[:3])}, the kernel's re-open through the magic-link fails with errno {kref[1]} "
+                   f"(history: {c.meta.get('history')})")
     return msg, same_inode
 
 
@@ -1239,16 +1251,54 @@ def check_C09(v, tier, seed):
     rf = Run("C09-reopen-fault", ["reopen-fault", "--seed", str(seed)])
     nrf = reopen_fault_cases(v, rf, concrete)
     runs.append(rf)
+    # the host's /proc over-mounted so that thread-self/fd/<n> leads into a decoy process holding another file under the
+    # same descriptor number: the reopen step (open_follow(ProcThreadSelf, "fd/<n>")) on every kind of handle and both resolvers
+    rom = Run("C09-reopen-overmount", ["reopen-overmount"])
+    om = {"cases": 0, "same_inode": 0, "errors_on_host_visible_handles": 0, "layouts": {}}
+    for c in rom.cases:
+        if c.meta.get("skipped"):
+            om["skipped"] = c.meta["skipped"]
+            continue
+        om["cases"] += 1
+        lay = c.meta.get("layout")
+        om["layouts"][lay] = om["layouts"].get(lay, 0) + 1
+        d = res_fd(c)
+        msg = None
+        if d is not None:
+            ident = f"{d.get('dev')}:{d.get('ino')}"
+            if ident == c.meta.get("want"):
+                om["same_inode"] += 1
+            elif ident == c.meta.get("decoy"):
+                msg = (f"re-opening descriptor 40 returned the file the decoy process holds under that number (layout {lay}): "
+                       "an over-mounted /proc turned the call into a different object")
+            else:
+                msg = f"re-opening descriptor 40 returned another object {ident} (layout {lay})"
+        elif c.res[:1] == ["panic"]:
+            msg = "panic"
+        elif c.meta.get("visible") == "0" or lay == "none" or c.meta.get("placed") == "0":
+            msg = (f"re-open failed ({' '.join(c.res[:3])}) on a handle that does not see the host's mounts / with nothing "
+                   f"mounted (layout {lay}): mounts over the host's /proc must have no effect for a private procfs")
+        else:
+            om["errors_on_host_visible_handles"] += 1
+        if msg:
+            facts = proc_facts(c)
+            facts.update({"kind": "oracle", "oracle": msg, "layout": lay})
+            v.fail(facts, case_replay(c, msg))
+            concrete.add((rom.name, c.id))
+    runs.append(rom)
     broken = generic_tie(v, runs, concrete)
     cov = coverage_of(runs, nontrivial=lambda c: True,
                       key=lambda c: (tuple(sorted(c.meta.items())), tuple(c.op), repr(c.extra.get("fault"))))
     cov["reopen_under_single_faults"] = nrf
     cov["rule"] = ("handles to {file, dir, fifo, socket, symlink (nofollow), file through a link} x forced descriptor numbers "
                    "{0,1,2,3,...,1023} (dup3) x history applied to the handle's path between resolve and reopen "
-                   "{none, rename, replace by another file, unlink} x flag set; oracle: (st_dev, st_ino), access mode, status flags "
-                   "and FD_CLOEXEC of the result vs the handle")
+                   "{none, rename, replace by another file, unlink, moved below a path longer than PATH_MAX} x flag set (every spelling of a "
+                   "creation request, with and without O_PATH, per target); oracle: (st_dev, st_ino), access mode, status flags "
+                   "and FD_CLOEXEC of the result vs the handle; host /proc over-mounted (symlinks over self / thread-self into a decoy "
+                   "process holding another file under the same number, tmpfs over the fd directory) x every handle kind x resolver")
     cov["tie_mismatches"] = broken
     cov["reopens_returning_the_handles_inode"] = same_inode
+    cov["reopen_with_host_proc_overmounted"] = om
     return cov
 
 
@@ -1272,14 +1322,25 @@ def check_C08(v, tier, seed):
     skipped = []
     try:
         for label, opts in C08_ENVS:
-            for unpriv in (False, True):
-                name = f"{label}-{'nobody' if unpriv else 'root'}"
+            # three kinds of caller: root (fsopen of procfs works); the root of a user namespace that owns its mount
+            # namespace but not its pid namespace (open_tree works, mounting a fresh procfs does not); uid 65534 (neither)
+            for who, prefix in (("root", ""), ("userns", "unshare -Ur -m "),
+                                ("nobody", "setpriv --reuid=65534 --regid=65534 --clear-groups ")):
+                name = f"{label}-{who}"
                 out = os.path.join(tmp, name + ".txt")
-                harness = f"{vlib.HARNESS_BIN} proc-matrix --label {name} --work {tmp}/w-{name} --out {out}"
-                if unpriv:
-                    harness = "setpriv --reuid=65534 --regid=65534 --clear-groups " + harness
+                harness = prefix + f"{vlib.HARNESS_BIN} proc-matrix --label {name} --work {tmp}/w-{name} --out {out}"
                 mount = f"mount -t proc -o {opts} proc /proc" if opts else "mount -t proc proc /proc"
-                rc, log = vlib.sh(["unshare", "-m", "-p", "-f", "sh", "-c", f"{mount} && {harness}"], timeout=600)
+                rc, log = vlib.sh(["unshare", "-m", "-p", "-f", "sh", "-c", f"{mount} && echo MOUNT-OK && {harness}"], timeout=600)
+                if "MOUNT-OK" in log and rc != 0 and who != "userns" or (who == "userns" and os.path.exists(out) and rc != 0):
+                    # the environment was set up and the harness (the library inside it) died or hung
+                    cases = parse_cases(out) if os.path.exists(out) else []
+                    last = cases[-1].id if cases else "none"
+                    v.fail({"kind": "oracle", "oracle": f"the process died during a procfs lookup (rc={rc})", "env": name,
+                            "last_completed_case": last},
+                           {"why": f"in environment {name} the harness process running the lookup matrix ended with status {rc} "
+                                   f"after case {last}: a lookup crashed or did not return",
+                            "how": f"unshare -m -p -f sh -c '{mount} && {harness}'", "log": log[-1500:]})
+                    continue
                 if rc != 0 or not os.path.exists(out):
                     skipped.append(f"{name}: rc={rc} {log[-200:]}")
                     continue
@@ -1330,7 +1391,9 @@ def check_C08(v, tier, seed):
                       key=lambda c: (c.meta.get("env"), c.meta.get("handle"), c.cfg.get("hemu"), tuple(c.op)))
     cov["rule"] = ("each of {default, hidepid=1, hidepid=2, hidepid=ptraceable, subset=pid, subset=pid+hidepid=2} is mounted as /proc "
                    "in a fresh mount+pid namespace, and the matrix handle constructor x resolver x base x {existing, missing, "
-                   "masked-but-existing} sub-path is run as root and as uid 65534 (which cannot create private procfs mounts)")
+                   "masked-but-existing} sub-path is run as root, as the root of a user namespace that owns its mount namespace but "
+                   "not the pid namespace (open_tree clones work, a fresh procfs cannot be mounted) and as uid 65534 (which can create "
+                   "no private procfs mount at all)")
     cov["tie_mismatches"] = broken
     cov["environments_run"] = len(runs)
     cov["environments_skipped"] = skipped
